@@ -75,6 +75,8 @@ Theorem whole_string_dec ci g s : eff_multi = false -> okb g = true ->
 Proof. intros Hm H. apply whole_string; [exact Hm | apply (proj1 (okb_ok ci)); exact H]. Qed.
 
 (** non-vacuity: a pattern using every construct but !() satisfies the hypothesis *)
+Definition ex_yes : str := lit "aqzexyyy*".
+Definition ex_no : str := lit "aqzcx*".
 Example ex_pat_ok : okb ex_pat = true /\ ex_pat <> GNil /\
-  glob_match false ex_pat (lit "aqzexyyy*") = true /\ glob_match false ex_pat (lit "aqzcx*") = false.
+  glob_match false ex_pat ex_yes = true /\ glob_match false ex_pat ex_no = false.
 Proof. repeat split; try (vm_compute; reflexivity). vm_compute. discriminate. Qed.
